@@ -86,6 +86,8 @@ def gen(seed, tier):
         for tag in ("a", "b"):
             o = dict(core)
             o["O"] = ("%.3f,%.3f" % (r.uniform(-80, 80), r.uniform(-170, 170))).encode().hex().upper()
+            if i % 3 == 0 and tag == "b":
+                del o["O"]      # no observer at all (what an unparsable -O amounts to): still only the distance differs
             cases.append(H("C19-o%d-%s" % (i, tag), o, segs))
     for i in range(2 * n):
         segs = history(g, lambda a: valid_frame(g, a), junk=0.0)
